@@ -545,7 +545,7 @@ theorem smap_generated_step_fit [Inhabited Wt] (K : Kernel X Wt β β) (inf eps 
       (let s : SMapState Wt := { a := ⟨self.a.W, self.a.cnt, self.a.n, self.a.labels⟩, map := self.map, labelsB := [] }
        let s' := smapStep K (scalarCfg mt false (· + eps) (· - eps) inf) self.a.params s (x, y)
        let c := (stepFit K (scalarCfg mt false (· + eps) (· - eps) inf) self.a.params (mapVeto self.map y) s.a x).2
-       (⟨⟨s'.a.W, s'.a.cnt, s'.a.n, self.a.params, self.a.labels, self.a.hasW⟩, s'.map⟩, c)) := by
+       (⟨⟨s'.a.W, s'.a.cnt, s'.a.n, self.a.params, self.a.labels, self.a.hasW⟩, s'.map, self.labelsB, self.hasLabels⟩, c)) := by
   letI : Inhabited β := ⟨0⟩
   unfold Art.Gen.SimpleARTMAP.step_fit
   simp only
@@ -579,23 +579,23 @@ theorem smap_predict_spec [Inhabited Wt] (K : Kernel X Wt β β) (inf : β) (sel
   unfold Art.Gen.SimpleARTMAP.predict
   simp only
   let f : X → Nat := fun x => (mapGet self.map ((stepPred K self.a.W x).getD 0)).getD 0
-  let pk : List Nat → Self Wt β × List (Option Nat) × List Nat := fun y => (self.a, self.map, y)
+  let pk : List Nat → Self Wt β × List (Option Nat) × List Nat × Bool × List Nat := fun y => (self.a, self.map, self.labelsB, self.hasLabels, y)
   have hloop := forEach_next_inv (R := SMapSelf Wt β × List Nat)
     (I := fun s => ∃ y, s = pk y)
-    (g := fun s (p : X × Nat) => pk (s.2.2.set p.2 (f p.1)))
+    (g := fun s (p : X × Nat) => pk (s.2.2.2.2.set p.2 (f p.1)))
     (body := Art.Gen.SimpleARTMAP.predict_loop1_body (scalarExt K inf)) (as := List.zipIdx Xs)
     (by
       rintro s ⟨x, i⟩ _ ⟨y, rfl⟩
       refine ⟨?_, ⟨_, rfl⟩⟩
       unfold Art.Gen.SimpleARTMAP.predict_loop1_body
-      have hs : ({ a := self.a, map := self.map } : SMapSelf Wt β) = self := rfl
+      have hs : ({ a := self.a, map := self.map, labelsB := self.labelsB, hasLabels := self.hasLabels } : SMapSelf Wt β) = self := rfl
       simp only [pk, hs, smap_step_pred_spec K inf self x, f])
     (pk (List.replicate Xs.length 0)) ⟨_, rfl⟩
   obtain ⟨h1, _⟩ := hloop
   simp only [pk] at h1
   rw [h1]
   have hfold : ∀ (l : List (X × Nat)) (y : List Nat),
-      (l.foldl (fun s (p : X × Nat) => pk (s.2.2.set p.2 (f p.1))) (pk y)) =
+      (l.foldl (fun s (p : X × Nat) => pk (s.2.2.2.2.set p.2 (f p.1))) (pk y)) =
         pk (l.foldl (fun y (p : X × Nat) => y.set p.2 (f p.1)) y) := by
     intro l
     induction l with
